@@ -206,6 +206,16 @@ func (g *G) planBody(b *schema.BodySchema, depth int, parentAddr string) *BodyPl
 		bp.Items = append(bp.Items, &Item{Attr: &AttrPlan{Name: "for_each", Schema: &schema.AttributeSchema{Constraint: schema.AnyExpression{OfType: cty.Map(cty.String)}}}})
 		bp.Locals = append(bp.Locals, Decl{Addr: "each.key", Type: cty.String, Local: true}, Decl{Addr: "each.value", Type: cty.DynamicPseudoType, Local: true})
 	}
+	if ext != nil && ext.Count != ext.ForEach && !g.O.NoOddities && !g.O.Simple && g.coin(0.3) {
+		// the meta-argument of the extension that is NOT enabled here: an unexpected attribute
+		other := "count"
+		if ext.Count {
+			other = "for_each"
+		}
+		if _, declared := b.Attributes[other]; !declared && b.AnyAttribute == nil {
+			bp.Items = append(bp.Items, &Item{Attr: &AttrPlan{Name: other, Expr: lit(cty.NumberIntVal(2)), Fixed: true}})
+		}
+	}
 	for _, n := range sortedAttrNames(b.Attributes) {
 		a := b.Attributes[n]
 		if _, isBlock := b.Blocks[n]; isBlock && g.coin(0.5) {
